@@ -1455,15 +1455,17 @@ Section World.
   Lemma filter_map_comm {A B} (g : A -> B) (p : B -> bool) l : filter p (map g l) = map g (filter (fun x => p (g x)) l).
   Proof. induction l as [|x l IH]; [reflexivity|]. cbn [map filter]. rewrite IH. destruct (p (g x)); reflexivity. Qed.
 
-  Theorem Src_getstate_is_state c undef x t bases :
-    class_view h c undef (i_cls x) -> mro_view c (i_cls x) bases ->
+  (* given what _get_all_fields_by_name yields for the class *)
+  Lemma Src_getstate_of_fields c undef x t :
+    Src_get_all_fields_by_name W (ref (i_cls x)) = Ok (field_by_name c) ->
+    class_view h c undef (i_cls x) ->
     c_ok c = true -> fields_nodup c = true -> public_attrs x = true ->
     (forall n v, is_field c n = true ->
                  w_mcall W (fld_ref n) (s2p "__serialize__") [v] = Src_Field_serialize W (fld_ref n) v) ->
     Src_Structure_getstate W (inst_obj x t) = Ok (PDict (skeys (state_of c x))).
   Proof.
-    intros V MV CO FN PA SER. unfold Src_Structure_getstate. unfold inst_obj at 1.
-    cbn [inst_class PyOpsFields.fld_class_of bind]. rewrite (Src_get_all_fields_is_fields c _ bases MV FN). cbn [bind].
+    intros GA V CO FN PA SER. unfold Src_Structure_getstate. unfold inst_obj at 1.
+    cbn [inst_class PyOpsFields.fld_class_of bind]. rewrite GA. cbn [bind].
     rewrite field_by_name_skeys, dict_items_skeys. cbn [bind].
     rewrite (comp_list_ok _ _ (fun e => match e with PTuple [PStr n; _] => alist_has (i_attrs x) n | _ => false end)
                           (fun e => match e with PTuple [PStr n; _] => (PStr n, getf c false x n) | _ => (e, e) end)).
@@ -1495,6 +1497,84 @@ Section World.
     cbn [map]. constructor; [|apply IH; exact ND'].
     intro Hin. apply Hn. apply in_map_iff in Hin. destruct Hin as [fd' [E Hf]]. apply filter_In in Hf.
     rewrite <- E. apply in_map. exact (proj1 Hf).
+  Qed.
+
+  Theorem Src_getstate_is_state c undef x t bases :
+    class_view h c undef (i_cls x) -> mro_view c (i_cls x) bases ->
+    c_ok c = true -> fields_nodup c = true -> public_attrs x = true ->
+    (forall n v, is_field c n = true ->
+                 w_mcall W (fld_ref n) (s2p "__serialize__") [v] = Src_Field_serialize W (fld_ref n) v) ->
+    Src_Structure_getstate W (inst_obj x t) = Ok (PDict (skeys (state_of c x))).
+  Proof.
+    intros V MV CO FN PA SER.
+    exact (Src_getstate_of_fields c undef x t (Src_get_all_fields_is_fields c _ bases MV FN) V CO FN PA SER).
+  Qed.
+
+  (* ---------------------------------------------------------------- _get_all_fields_by_name over a whole MRO *)
+
+  Definition level_pairs (fs : list pystr) : list (pystr * pyval) := map (fun n => (n, fld_ref n)) fs.
+  Definition set_all (acc d : list (pystr * pyval)) : list (pystr * pyval) :=
+    fold_left (fun a p => alist_set a (fst p) (snd p)) d acc.
+
+  (* what the loop computes: the classes of the MRO that are Structure classes, base classes first; the own
+     field names of each, as a dict name -> Field object, update the accumulator (a later class overrides) *)
+  Definition mro_merge (levels : list (pystr * list pystr)) : list (pystr * pyval) :=
+    fold_left (fun acc lv => set_all acc (set_all [] (level_pairs (snd lv))))
+              (rev (filter (fun lv => class_says h (fst lv) n_StructMeta) levels)) [].
+
+  (* cls.mro() lists the classes [levels] (name, own `_fields`); every Structure class among them binds each of
+     its own field names to the Field object of that name *)
+  Record mro_levels (cls : pystr) (levels : list (pystr * list pystr)) : Prop := {
+    ml_mro : h cls n_mro = Some (PList (map (fun lv => ref (fst lv)) levels));
+    ml_fields : forall lv, In lv levels -> class_says h (fst lv) n_StructMeta = true ->
+                match h (fst lv) n_fields with Some v => v | None => PList [] end = PList (map PStr (snd lv));
+    ml_attr : forall lv n, In lv levels -> class_says h (fst lv) n_StructMeta = true -> In n (snd lv) ->
+              h (fst lv) n = Some (fld_ref n) }.
+
+  Theorem Src_get_all_fields_is_merge cls levels :
+    mro_levels cls levels ->
+    Src_get_all_fields_by_name W (ref cls) = Ok (PDict (skeys (mro_merge levels))).
+  Proof.
+    intro V. unfold Src_get_all_fields_by_name. rewrite any_getattr_ref. fold h.
+    pose proof (ml_mro _ _ V) as M. unfold n_mro in M. rewrite M. cbn [bind py_iter_obs PyOpsFields.py_iter].
+    rewrite <- (map_map fst ref). rewrite comp_refs. cbn [bind py_reversed py_iter_obs PyOpsFields.py_iter].
+    rewrite <- map_rev. rewrite (filter_map_comm fst (fun n => class_says h n (s2p "StructMeta"))), <- map_rev, map_map.
+    unfold mro_merge. change (@nil (pyval * pyval)) with (skeys []).
+    assert (B : forall lv, In lv (rev (filter (fun lv => class_says h (fst lv) (s2p "StructMeta")) levels)) ->
+                In lv levels /\ class_says h (fst lv) n_StructMeta = true).
+    { intros lv Hl. apply in_rev in Hl. apply filter_In in Hl. exact Hl. }
+    change (filter (fun lv : pystr * list pystr => class_says h (fst lv) n_StructMeta) levels)
+      with (filter (fun lv : pystr * list pystr => class_says h (fst lv) (s2p "StructMeta")) levels).
+    set (one := fun lv : pystr * list pystr => set_all [] (level_pairs (snd lv))).
+    change (fun (acc : list (pystr * pyval)) (lv : pystr * list pystr) => set_all acc (set_all [] (level_pairs (snd lv))))
+      with (fun (acc : list (pystr * pyval)) (lv : pystr * list pystr) => set_all acc (one lv)).
+    generalize (@nil (pystr * pyval)) as acc.
+    induction (rev (filter (fun lv => class_says h (fst lv) (s2p "StructMeta")) levels)) as [|lv L IH]; intro acc; [reflexivity|].
+    destruct (B lv (or_introl eq_refl)) as [Hin Hm].
+    cbn [map py_for fold_left]. rewrite val_isinstance_ref. unfold n_StructMeta in Hm. rewrite Hm. cbn [bind].
+    rewrite any_getattr_def_ref. pose proof (ml_fields _ _ V lv Hin Hm) as F. unfold n_fields in F. rewrite F.
+    cbn [bind py_iter_obs PyOpsFields.py_iter].
+    rewrite (mapM_ok _ (fun v => match v with PStr n => (PStr n, fld_ref n) | _ => (v, v) end)).
+    2:{ apply Forall_forall. intros v Hv. apply in_map_iff in Hv. destruct Hv as [n [<- Hn]].
+        unfold any_getattr_dyn. rewrite any_getattr_ref. fold h. rewrite (ml_attr _ _ V lv n Hin Hm Hn). reflexivity. }
+    cbn [bind]. rewrite map_map.
+    assert (E : map (fun x => (PStr x, fld_ref x)) (snd lv) = skeys (level_pairs (snd lv))).
+    { unfold skeys, level_pairs. rewrite map_map. reflexivity. }
+    rewrite E. unfold py_dict_of, PyOpsFields.py_dict_of. change (@nil (pyval * pyval)) with (skeys []).
+    rewrite dict_build_skeys. cbn [bind py_dict_update]. rewrite fold_dict_set_skeys.
+    fold (set_all [] (level_pairs (snd lv))). fold (one lv). fold (set_all acc (one lv)).
+    apply IH. intros lv' Hl'. apply B. right. exact Hl'.
+  Qed.
+
+  Theorem Src_getstate_is_state_mro c undef x t levels :
+    class_view h c undef (i_cls x) -> mro_levels (i_cls x) levels -> mro_merge levels = fields_alist c ->
+    c_ok c = true -> fields_nodup c = true -> public_attrs x = true ->
+    (forall n v, is_field c n = true ->
+                 w_mcall W (fld_ref n) (s2p "__serialize__") [v] = Src_Field_serialize W (fld_ref n) v) ->
+    Src_Structure_getstate W (inst_obj x t) = Ok (PDict (skeys (state_of c x))).
+  Proof.
+    intros V ML E CO FN PA SER. apply (Src_getstate_of_fields c undef x t); try assumption.
+    rewrite (Src_get_all_fields_is_merge _ levels ML), E, field_by_name_skeys. reflexivity.
   Qed.
 
   (* the state is what the hand-written round trip keeps: the same lookups as i_attrs (pickle_rt c x) *)
@@ -1645,6 +1725,24 @@ Proof.
   - apply state_lookup.
 Qed.
 
+(* the same through a whole MRO: _get_all_fields_by_name merges the own fields of the Structure classes of
+   cls.mro(), base classes first ([mro_merge]); c lists them in that order *)
+Theorem C11_src_getstate_mro :
+  forall c undef num_str str_repr enum_vrepr str_hash mcall h x t levels,
+    class_view h c undef (i_cls x) ->
+    mro_levels (the_world num_str str_repr enum_vrepr str_hash mcall h) (i_cls x) levels ->
+    mro_merge (the_world num_str str_repr enum_vrepr str_hash mcall h) levels = fields_alist c ->
+    c_ok c = true -> fields_nodup c = true -> public_attrs x = true ->
+    (forall n v, is_field c n = true ->
+                 mcall (fld_ref n) (s2p "__serialize__") [v] =
+                 Src_Field_serialize (the_world num_str str_repr enum_vrepr str_hash mcall h) (fld_ref n) v) ->
+    Src_Structure_getstate (the_world num_str str_repr enum_vrepr str_hash mcall h) (inst_obj x t) =
+    Ok (PDict (skeys (state_of c x))).
+Proof.
+  intros c undef ns sr ev sh mcall h x t levels.
+  exact (Src_getstate_is_state_mro (the_world ns sr ev sh mcall h) c undef x t levels).
+Qed.
+
 (* ------------------------------------------------------------------ the hypotheses are satisfiable *)
 
 
@@ -1772,6 +1870,35 @@ Example ex_getstate_runs :
   Ok (PDict [(PStr (s2p "n"), PNum (NInt 1)); (PStr (s2p "s"), PStr (s2p "q"))]).
 Proof. vm_compute. reflexivity. Qed.
 
+(* inherited fields: class B2(A2), A2 declares n, B2 declares s *)
+Definition ex_mro_heap : heap :=
+  fun o a =>
+    match alist_get
+            [ (s2p "B2", [ (n_mro, PList [ref (s2p "B2"); ref (s2p "A2"); ref (s2p "Structure"); ref (s2p "object")]);
+                           (isinstance_attr n_StructMeta, PBool true); (n_fields, PList [PStr (s2p "s")]);
+                           (s2p "s", fld_ref (s2p "s")); (s2p "n", fld_ref (s2p "n")) ]);
+              (s2p "A2", [ (isinstance_attr n_StructMeta, PBool true); (n_fields, PList [PStr (s2p "n")]);
+                           (s2p "n", fld_ref (s2p "n")) ]);
+              (s2p "Structure", [ (isinstance_attr n_StructMeta, PBool true); (n_fields, PList []) ]) ] o with
+    | Some attrs => alist_get attrs a
+    | None => None
+    end.
+
+Definition ex_levels : list (pystr * list pystr) :=
+  [(s2p "B2", [s2p "s"]); (s2p "A2", [s2p "n"]); (s2p "Structure", []); (s2p "object", [])].
+
+Example ex_mro :
+  mro_levels (ex_world_of ex_mro_heap) (s2p "B2") ex_levels /\
+  mro_merge (ex_world_of ex_mro_heap) ex_levels = fields_alist ex_c /\
+  Src_get_all_fields_by_name (ex_world_of ex_mro_heap) (ref (s2p "B2")) = Ok (field_by_name ex_c).
+Proof.
+  split; [|split]; try (vm_compute; reflexivity).
+  constructor; [vm_compute; reflexivity | |].
+  - intros lv [<- | [<- | [<- | [<- | []]]]] Hm; try (vm_compute; reflexivity); vm_compute in Hm; discriminate Hm.
+  - intros lv n [<- | [<- | [<- | [<- | []]]]] Hm Hn; cbn [snd] in Hn; repeat (destruct Hn as [<- | Hn]; [vm_compute; reflexivity|]);
+      destruct Hn.
+Qed.
+
 (* nested instances as typedpy builds them: `_none_fields` = set(), `_instantiated` = True *)
 Definition typedpy_ni : list (pystr * pyval) := [(n_none_fields, PSet false []); (n_instantiated, PBool true)].
 
@@ -1828,7 +1955,10 @@ Print Assumptions C11_src_hash_nested.
 Print Assumptions C11_src_copy.
 Print Assumptions C11_src_deepcopy.
 Print Assumptions C11_src_getstate.
+Print Assumptions C11_src_getstate_mro.
 Print Assumptions Src_get_all_fields_is_fields.
+Print Assumptions Src_get_all_fields_is_merge.
+Print Assumptions ex_mro.
 Print Assumptions ex_views.
 Print Assumptions Src_str_disagrees_on_reference_classes.
 Print Assumptions Src_str_prints_nested_none_fields.
